@@ -54,6 +54,47 @@ def literal_key(k):
     return False
 
 
+ENTRY_CLASSES = (acc_mod.PyTreeEntry, acc_mod.GetItemEntry, acc_mod.GetAttrEntry, acc_mod.FlattenedEntry,
+                 acc_mod.SequenceEntry, acc_mod.MappingEntry, acc_mod.NamedTupleEntry, acc_mod.StructSequenceEntry,
+                 acc_mod.DataclassEntry, un.CNEntry)
+_SEEN_ENTRIES = set()
+
+
+def entry_eq_hash(ctx, e, case, keyf):
+    """== / hash consistency of path entries across entry classes: the same (entry, type, kind) wrapped in
+    every entry class; whenever two of them compare equal their hashes must be equal (and == symmetric)."""
+    try:
+        sig = (type(e), e.entry, e.type, e.kind)
+        if sig in _SEEN_ENTRIES:
+            return
+        _SEEN_ENTRIES.add(sig)
+    except TypeError:
+        return
+    clones = []
+    for cls in ENTRY_CLASSES:
+        try:
+            clones.append(cls(e.entry, e.type, e.kind))
+        except Exception:  # noqa: BLE001
+            continue
+    clones.append(e)
+    for a in clones:
+        for b in clones:
+            ctx.extra['entry-pairs'] += 1
+            try:
+                eq, eq2 = (a == b), (b == a)
+                if eq != eq2 or (a != b) == eq:
+                    ctx.violation('entry-eq-symmetry', keyf('entry-eq-hash'), case, f'{a!r} vs {b!r}')
+                elif eq and hash(a) != hash(b):
+                    ctx.violation('entry-eq-hash', keyf('entry-eq-hash'), case,
+                                  f'{type(a).__name__}{a!r} == {type(b).__name__}{b!r} but hashes differ')
+                elif eq:
+                    pa, pb = optree.PyTreeAccessor((a,)), optree.PyTreeAccessor((b,))
+                    if pa == pb and hash(pa) != hash(pb):
+                        ctx.violation('accessor-eq-hash', keyf('entry-eq-hash'), case, f'{pa!r} vs {pb!r}')
+            except Exception as ex:  # noqa: BLE001
+                ctx.violation('entry-eq-raises', keyf('entry-eq-hash'), case, f'{a!r} vs {b!r}: {ex!r}')
+
+
 def check(ctx, tree, leaves0, dsl, cfg):  # noqa: C901, PLR0912
     U, _ = e1.universe()
     kw = e1.kw_of(cfg)
@@ -85,6 +126,7 @@ def check(ctx, tree, leaves0, dsl, cfg):  # noqa: C901, PLR0912
             ctx.violation('accessor-depth', keyf('accessor-depth'), case, f'{a!r} vs {typed!r}')
             continue
         for e, (entry, ntype, kind, reg) in zip(a, typed):
+            entry_eq_hash(ctx, e, case, keyf)
             want_cls = expected_entry_class(kind, ntype, reg)
             ok = (type(e.entry) is type(entry) and e.entry == entry and e.type is ntype
                   and e.kind.name == e1.KIND_NAMES[kind] and type(e) is want_cls)
